@@ -4,8 +4,48 @@ from .. import core, manifest_checks as mc
 from . import gen_common
 from .c06 import nonshareable
 
+PIECES = ["a", "b", "lib", "src", "x.c", "y.tar.gz", ".hidden", "a.", "..", ".", "", "build", "dl", "nrfx", "nrfx_hal", "ü", "${V}", "x.${E}", "main.o", "o"]
+
+def rand_path(rng):
+    n = rng.randint(0, 4)
+    p = "/".join(rng.choice(PIECES) for _ in range(n))
+    if rng.random() < 0.15: p = "/" + p
+    if rng.random() < 0.15: p = p + "/"
+    if rng.random() < 0.1: p = "./" + p
+    return p
+
+def path_requests(rng, n):
+    """the camino operations the generator and the loader rely on, on adversarial path spellings"""
+    hx = core.hexs
+    out = []
+    for _ in range(n):
+        a, b = rand_path(rng), rand_path(rng)
+        if rng.random() < 0.4:                      # related paths: b a prefix of a (by components or only by characters)
+            cut = a.split("/"); b = "/".join(cut[:rng.randint(0, len(cut))]) + rng.choice(["", "", "/", "x"])
+        op = rng.choice(["push", "ext", "withext", "parent", "startswith", "ncomp", "stripprefix", "stripprefix", "patheq", "sort"])
+        if op == "sort":
+            args = [rand_path(rng) for _ in range(rng.randint(2, 5))]
+        elif op in ("ext", "parent", "ncomp"): args = [a]
+        elif op == "withext": args = [a, rng.choice(["o", "", "123.o", "tar.gz"])]
+        else: args = [a, b]
+        out.append("path %s %d %s" % (op, len(args), " ".join(hx(x) for x in args)))
+    return out
+
 def run(rep, tier, seed, rng):
     core.proof_step(rep, "C07", clean=(tier == "thorough"))
+    # object paths are built with camino's push / with_extension / starts_with: the model's Path.v against camino itself
+    preqs = path_requests(rng, 3000 if tier == "quick" else 60000)
+    laze0 = core.build_impl(); driver0 = core.build_model()
+    pa = core.run_impl_oracle(laze0, preqs); pb = core.run_model(driver0, preqs)
+    npath_dis = 0
+    for q, x, y in zip(preqs, pa, pb):
+        if x.strip() != y.strip():
+            npath_dis += 1
+            if npath_dis <= 5:
+                t = q.split()
+                rep.violation("path operation %s: camino and the model's Path.v differ" % t[1],
+                              dict(op=t[1], args=[core.unhexs(z) for z in t[3:]], impl=x, model=y), found_input=False)
+    rep.cov.update(path_operations_compared=len(preqs), path_disagreements=npath_dis)
     cases = gen_common.load_cases(rng, tier, 300, 5000, focus="build")
     laze, driver, results = gen_common.run_cases(cases)
     distinct = set(); ndis = 0; npairs = 0
